@@ -1363,6 +1363,7 @@ func parseCertificate(in *certificate) (*Certificate, error) {
 					return out, UnhandledCriticalExtension{}
 				}
 
+				out.PermittedDNSDomainsCritical = e.Critical
 				for _, subtree := range constraints.Permitted {
 					if len(subtree.Name) == 0 {
 						if e.Critical {
